@@ -69,6 +69,8 @@ func checkC04(c *Ctx) {
 	checkWorldConversions(c, "R04p")
 	r.Rule("R04q", "a flattened oneof whose variant children share a JSON key with a parent field (plain, proto3-optional, member of another oneof, discriminator) is refused: two fields writing one key cannot round-trip (scenarios shared with C12/R12g)", 5)
 	c12ScenariosRule(c, "R04q", func(fn, rule string) bool { return fn == "validateOneofFlatten" })
+	r.Rule("R04r", "an emitted encoder writes one entry for every element of the collection it ranges over: inside the loop the store is guarded by nil tests only (an entry skipped for being empty cannot be restored by the decoder)", 2)
+	encoderKeepsEveryElement(c, "R04r")
 
 	type siteAgg struct {
 		pos  string
@@ -480,4 +482,188 @@ func checkJSONOnMessages(c *Ctx, rule string) {
 		r.Bad(rule, k, sites[k], "encoding/json is applied to a value whose proto3 JSON form differs from its Go json-tag form: keys are the proto field names (snake_case) instead of JSON names, 64-bit integers and enums become numbers, zero values follow omitempty — the output is not the contract's JSON and multi-word field names do not round-trip through the flattened form", nil)
 	}
 	r.OKd(rule, "encoding/json call sites in codec units inventoried", "", map[string]any{"message_or_sibling_sites": len(sites)})
+}
+
+// encoderKeepsEveryElement — R04r. In every emitted MarshalJSON (all variants of every codec unit, both Go plugins): a
+// `for … range x.<F>` loop whose body stores into a map or appends to a slice is the element-wise encoding of a repeated
+// or map field. Between the loop and the store the only admissible conditions are nil tests and error tests; a condition on
+// the element's length or content (`len(wrapper.GetBars()) > 0`) drops elements — a map key with an empty list, an empty
+// string in a list — which the decoder then cannot give back.
+func encoderKeepsEveryElement(c *Ctx, rid string) {
+	r := c.R
+	nLoops := 0
+	reported := map[string]bool{}
+	for _, ri := range c.goUnitRoots() {
+		ex := c.ExploreT(ri.Fn, 6000)
+		for _, v := range ex.Variants {
+			for _, u := range v.Units {
+				fset, f, err := ParseUnit(u)
+				if err != nil {
+					continue
+				}
+				gen := func(p token.Pos) string {
+					line := fset.Position(p).Line
+					if line >= 1 && line <= len(u.Lines) {
+						return c.P.Pos(u.Lines[line-1].Pos)
+					}
+					return ""
+				}
+				for _, d := range f.Decls {
+					fd, ok := d.(*ast.FuncDecl)
+					if !ok || fd.Body == nil || fd.Recv == nil || fd.Name.Name != "MarshalJSON" || len(fd.Recv.List[0].Names) == 0 {
+						continue
+					}
+					recv := fd.Recv.List[0].Names[0].Name
+					parents := parentMap(fd.Body)
+					ast.Inspect(fd.Body, func(nd ast.Node) bool {
+						rs, ok := nd.(*ast.RangeStmt)
+						if !ok {
+							return true
+						}
+						// ranges over a field of the receiver (directly or through a getter)
+						if root := rootIdentOf(rs.X); root == nil || root.Name != recv {
+							if call, isCall := ast.Unparen(rs.X).(*ast.CallExpr); !isCall || rootIdentOf(call.Fun) == nil || rootIdentOf(call.Fun).Name != recv {
+								return true
+							}
+						}
+						ast.Inspect(rs.Body, func(m ast.Node) bool {
+							as, ok := m.(*ast.AssignStmt)
+							if !ok || len(as.Lhs) != 1 {
+								return true
+							}
+							store := false
+							if ix, ok := as.Lhs[0].(*ast.IndexExpr); ok && rootIdentOf(ix.X) != nil {
+								store = true
+							}
+							if call, ok := ast.Unparen(as.Rhs[0]).(*ast.CallExpr); ok && types.ExprString(call.Fun) == "append" {
+								store = true
+							}
+							if !store {
+								return true
+							}
+							nLoops++
+							for p := parents[ast.Node(as)]; p != nil && p != ast.Node(rs); p = parents[p] {
+								ifs, ok := p.(*ast.IfStmt)
+								if !ok || !nodeContains(ifs.Body, as.Pos()) {
+									continue
+								}
+								cond := types.ExprString(ifs.Cond)
+								okCond := true
+								ast.Inspect(ifs.Cond, func(q ast.Node) bool {
+									switch y := q.(type) {
+									case *ast.BinaryExpr:
+										if y.Op == token.LAND || y.Op == token.LOR {
+											return true
+										}
+										if !((y.Op == token.NEQ || y.Op == token.EQL) && (isNilIdent(y.X) || isNilIdent(y.Y))) {
+											okCond = false
+										}
+										return false
+									case *ast.CallExpr, *ast.UnaryExpr:
+										okCond = false
+										return false
+									}
+									return true
+								})
+								if !okCond {
+									k := fmt.Sprintf("%s *%s: element-wise encoding of %s keeps every element", pkgShort(ri.Pkg), ri.Suffix, holeFree(types.ExprString(rs.X)))
+									if !reported[k] {
+										reported[k] = true
+										r.Bad(rid, k, gen(ifs.Pos()), "the emitted MarshalJSON encodes "+holeFree(types.ExprString(rs.X))+" element by element but writes an element only under `"+holeFree(cond)+"`: elements for which the condition is false (a map key whose list is empty, an empty element) vanish from the JSON, and the decoder rebuilds the message without them", nil)
+									}
+								}
+							}
+							return true
+						})
+						return true
+					})
+				}
+			}
+		}
+	}
+	r.OKd(rid, "element-wise encoder loops inspected", "", map[string]any{"stores_in_loops": nLoops, "conditional": len(reported)})
+}
+
+// wrapperKeyAlwaysRemoved — R06n. The flatten and discriminated-oneof encoders replace a wrapper key of the protojson form by
+// promoted keys. The schema and the TypeScript type describe the promoted form only, so the wrapper key must be deleted
+// whenever the field is set: in the emitted MarshalJSON of those units a `delete(<raw map>, "<key>")` may be conditional on
+// nil tests and comma-ok tests only, never on the child's content (`len(childRaw) > 0` leaves `"shipping":{}` on the wire).
+func wrapperKeyAlwaysRemoved(c *Ctx, rid string) {
+	r := c.R
+	nDel := 0
+	reported := map[string]bool{}
+	for _, ri := range c.goUnitRoots() {
+		if ri.Suffix != "_flatten.pb.go" && ri.Suffix != "_oneof_discriminator.pb.go" {
+			continue
+		}
+		ex := c.ExploreT(ri.Fn, 6000)
+		for _, v := range ex.Variants {
+			for _, u := range v.Units {
+				fset, f, err := ParseUnit(u)
+				if err != nil {
+					continue
+				}
+				gen := func(p token.Pos) string {
+					line := fset.Position(p).Line
+					if line >= 1 && line <= len(u.Lines) {
+						return c.P.Pos(u.Lines[line-1].Pos)
+					}
+					return ""
+				}
+				for _, d := range f.Decls {
+					fd, ok := d.(*ast.FuncDecl)
+					if !ok || fd.Body == nil || fd.Recv == nil || fd.Name.Name != "MarshalJSON" {
+						continue
+					}
+					parents := parentMap(fd.Body)
+					ast.Inspect(fd.Body, func(nd ast.Node) bool {
+						call, ok := nd.(*ast.CallExpr)
+						if !ok || types.ExprString(call.Fun) != "delete" || len(call.Args) != 2 {
+							return true
+						}
+						if _, isLit := call.Args[1].(*ast.BasicLit); !isLit {
+							return true // a computed key (the promoted children of a variant), not the wrapper
+						}
+						nDel++
+						for p := parents[ast.Node(call)]; p != nil; p = parents[p] {
+							ifs, ok := p.(*ast.IfStmt)
+							if !ok || !nodeContains(ifs.Body, call.Pos()) {
+								continue
+							}
+							okCond := true
+							ast.Inspect(ifs.Cond, func(q ast.Node) bool {
+								switch y := q.(type) {
+								case *ast.BinaryExpr:
+									if y.Op == token.LAND || y.Op == token.LOR {
+										return true
+									}
+									if !((y.Op == token.NEQ || y.Op == token.EQL) && (isNilIdent(y.X) || isNilIdent(y.Y))) {
+										okCond = false
+									}
+									return false
+								case *ast.CallExpr, *ast.UnaryExpr:
+									okCond = false
+									return false
+								}
+								return true
+							})
+							if !okCond {
+								k := fmt.Sprintf("%s *%s: the wrapper key is removed whenever the field is set", pkgShort(ri.Pkg), ri.Suffix)
+								if !reported[k] {
+									reported[k] = true
+									r.Bad(rid, k, gen(ifs.Pos()), "the emitted MarshalJSON deletes the wrapper key "+holeFree(types.ExprString(call.Args[1]))+" only under `"+holeFree(types.ExprString(ifs.Cond))+"`: when the condition is false (a set but empty child) the un-promoted wrapper stays on the wire, a property neither the component schema nor the TypeScript type describes", nil)
+								}
+							}
+						}
+						return true
+					})
+				}
+			}
+		}
+	}
+	if nDel == 0 {
+		r.Unres(rid, "wrapper-key deletions in the flatten / oneof encoders", "", "no delete(raw, \"key\") found")
+		return
+	}
+	r.OKd(rid, "wrapper-key deletions inspected", "", map[string]any{"deletes": nDel, "conditional_on_content": len(reported)})
 }
